@@ -9,8 +9,14 @@ import FGVerif.Model.Graph
 
   and the executable specifications the driver applies to implementation outputs.
 
-  Numbers are unbounded `Nat`: the int64 wrap-around of numpy's walk counts is NOT modelled
-  (the harness has a high-radius dense probe that reports, never decides).  No Mathlib.
+  Numbers: since repair 5e2d069 the code clamps every matrix power to 0/1
+  (`D = (np.matmul(D, A) > 0).astype(A.dtype)`), so its int64 entries stay `≤ radius + 1` and never
+  wrap.  `powLoopC` / `getUnreachableClamped` / `pruneItsToRcClamped` transcribe that loop literally
+  (they are what the driver evaluates); `powLoop` / `getUnreachable` / `pruneItsToRc` count walks in
+  unbounded `Nat` without clamping (what the code did before the repair, minus the wrap-around) and
+  are what the property theorems are stated about.  `Proofs/C11Clamp.lean` proves that the two
+  return the same list / the same graph for every input (`C11.getUnreachableClamped_eq`,
+  `C11.pruneItsToRcClamped_eq`).  No radius is outside the domain.  No Mathlib.
 -/
 
 /-! ### matrices as `List (List Nat)` (what numpy holds), tabulated over `range n` -/
@@ -49,6 +55,19 @@ def powLoop (n : Nat) (A : Mat) : Nat → Mat × Mat → Mat × Mat
 
 /-- `D_sum` after the loop, started from `D = D_sum = I` -/
 def powSumMat (n : Nat) (A : Mat) (r : Nat) : Mat := (powLoop n A r (identity n, identity n)).2
+
+/-- `(M > 0).astype(A.dtype)` -/
+def clampMat (n : Nat) (M : Mat) : Mat := tab n fun i j => if 0 < entry M i j then 1 else 0
+
+/-- `for _ in range(r): D = (np.matmul(D, A) > 0).astype(A.dtype); D_sum += D`; state `(D, D_sum)` -/
+def powLoopC (n : Nat) (A : Mat) : Nat → Mat × Mat → Mat × Mat
+  | 0, ds => ds
+  | r + 1, (D, S) =>
+      let D' := clampMat n (matMul n D A)
+      powLoopC n A r (D', matAdd n S D')
+
+/-- `D_sum` after the clamping loop, started from `D = D_sum = I` -/
+def powSumMatC (n : Nat) (A : Mat) (r : Nat) : Mat := (powLoopC n A r (identity n, identity n)).2
 
 end Reach
 
@@ -107,6 +126,16 @@ def getUnreachable (g : Graph) (starts : List Int) (r : Nat) : List Int :=
   let startIdx := starts.map fun s => nl.idxOf s
   ((List.range n).filter fun j => colSum S startIdx j == 0).map fun j => nl.getD j 0
 
+/-- `get_unreachable_nodes(g, start_nodes, radius)` as the code reads since 5e2d069: every power is
+    clamped to 0/1 before it is added (same list as `getUnreachable`: `C11.getUnreachableClamped_eq`) -/
+def getUnreachableClamped (g : Graph) (starts : List Int) (r : Nat) : List Int :=
+  let nl := sortedIds g
+  let n := nl.length
+  let A := adjMatrix g nl
+  let S := powSumMatC n A r
+  let startIdx := starts.map fun s => nl.idxOf s
+  ((List.range n).filter fun j => colSum S startIdx j == 0).map fun j => nl.getD j 0
+
 /-! ### prune_its_to_rc -/
 
 /-- `max(its.nodes, default=-1) + 1` -/
@@ -129,6 +158,12 @@ def pruneStep (its : Graph) (unr : List Int) (insertH : Bool) (st : Graph × Int
 def pruneItsToRc (its : Graph) (r : Nat) (insertH : Bool) : Graph :=
   let rc := getRc its
   let unr := getUnreachable its rc.nodeIds r
+  (unr.foldl (pruneStep its unr insertH) (its, freshId its)).1
+
+/-- `prune_its_to_rc` on top of the clamping `get_unreachable_nodes` (what the driver evaluates) -/
+def pruneItsToRcClamped (its : Graph) (r : Nat) (insertH : Bool) : Graph :=
+  let rc := getRc its
+  let unr := getUnreachableClamped its rc.nodeIds r
   (unr.foldl (pruneStep its unr insertH) (its, freshId its)).1
 
 /-! ### executable specifications (independent of the matrix computation) -/
